@@ -280,6 +280,10 @@ func init() {
 			cfg.MaxStructs = 4
 			cfg.PLiteral = 10
 			p := pgen.Generate(c.Seed*523+int64(i), cfg)
+			if i%10 == 3 {
+				// every tenth program: the prefix-related-names skeleton
+				p = pgen.RefactorSkeleton(c.Seed*523+int64(i), cfg)
+			}
 			files := p.Print()
 			add := func(e c19Edit) {
 				inp := c19Input{Files: files, Edit: e}
